@@ -110,7 +110,8 @@ def diff_snapshot(snap, x, path=''):
       yield 'deleted', path, 'original leaf object is deleted (donated buffer)'
       return
     if not _leaf_same(snap[2], _leaf_value(x)):
-      yield 'changed', path, {'before': snap[2], 'after': _leaf_value(x)}
+      # same object with another value: written in place; another object: the holding container was updated
+      yield ('changed' if snap[1] is x else 'container'), path, {'before': snap[2], 'after': _leaf_value(x)}
     return
   if ch is None:
     yield 'container', path, 'a container became a leaf'
@@ -393,9 +394,9 @@ def run_history(ctx, jax, fedjax, case, tmpdir):
 
     # (1) apply; the caller's state must keep its value and stay readable
     r1 = guarded(entry, apply, state, inputs, w=w)
+    verify_input(snap, 'after the first apply' + ('' if r1.ok else ' (which raised)'), w)
     if not r1.ok:
       return done(False)
-    verify_input(snap, 'after the first apply', w)
     # (2) apply again with the same arguments: same outputs
     r2 = guarded(entry, apply, state, inputs, w=w)
     if not r2.ok:
